@@ -432,6 +432,10 @@ pub fn content_types() -> Vec<Option<String>> {
         v.push(Some(format!("{m}{bp}; charset=utf-8")));
         v.push(Some(format!("{}{bp}", m.to_ascii_uppercase())));
         v.push(Some(format!("{m}x{bp}")));
+        // other media types that merely begin with this one and go on with a non-alphanumeric character
+        // (`application/json-seq`, `application/json+x`: registered types of their own)
+        v.push(Some(format!("{m}-seq{bp}")));
+        v.push(Some(format!("{m}+x{bp}")));
         v.push(Some(format!("text/html; x={m}")));         // another type whose parameter mentions this one
     }
     v.push(Some("text/html".to_string()));
